@@ -9,12 +9,15 @@ Contents
   `UInt16` arithmetic on symbolic bytes).
 * raw reads and hexadecimal pairs: `readByteRaw_src/_peek`, `SpellsByte`, `HexTail`, `readHexPair_spell`.
 * one decrypted byte in either mode: `Layout`, `readByte_enc`.
-* simulation: `Sim` (the invariant: mode, no replay, equal peek buffers, raw source = layout of the remaining cipher
+* simulation: `SimL dl` / `Sim = SimL 0` (the invariant; `dl` = constant difference of the line counters, which are
+  never read; fields: mode, no replay, equal peek buffers, column, `crSeen`, DSC comments, error, fault, raw source = layout of the remaining cipher
   bytes ++ rest, register = `stateAfter eexecR` of the consumed cipher bytes, plain source = decryption of the
   remaining cipher bytes), `Exhausted`, `SimM` and its closure lemmas, `SimM.readByte/next/peek/peekN/…`.
 * `beginEexec`: clear phase (`skipEexecSpace_clear`, `peekN_clear`, `beginEexec_front`), replay phase
   (`next_ov_bin`, `next_ov_hex`, `next_ov_enc`), `beginEexec_binary_raw`, `beginEexec_hex_raw`.
-* the stream: `Sim.next_step`, `Sim.readN_steps`, `Sim.position`, `eexec_begin_binary`, `eexec_begin_hex`,
+* the stream: `SimL.next_step`, `SimL.readN_steps`, `SimL.position`, `eexec_begin_binary`, `eexec_begin_hex`
+  (plain scanner `plainOf s1 plain`, same line), `eexec_begin_binary0`, `eexec_begin_hex0` (plain scanner
+  `plainStart0 s0 ws plain`, independent of the random prefix; `beginEexec` leaves column 0 and `crSeen` off),
   `eexec_stream`.
 * `endEexec`: `endEexec_run`, `Sim.endEexec_at_end`; look-ahead past the end: `Sim.peek_past_end_binary`.
 * tokenizer loops at equal fuel: `SimM.readRegular`, `SimM.readStringBody`, ….
@@ -239,7 +242,7 @@ prefix included): the cipher bytes `done` have been consumed, the register is th
 source is the layout of the remaining cipher bytes `cs` followed by the clear text `rest`; `sp` is the plain scanner
 (eexec off) whose source is the decryption of `cs` under the current register of `se`. Everything else (peek buffer, position, DSC comments, sticky
 error) agrees. -/
-structure Sim (mode : Nat) (cipher rest : List UInt8) (se sp : Scanner) : Prop where
+structure SimL (dl : Nat) (mode : Nat) (cipher rest : List UInt8) (se sp : Scanner) : Prop where
   mode_ok : mode = 1 ∨ mode = 2
   eexec_e : se.eexec = mode
   eexec_p : sp.eexec = 0
@@ -248,12 +251,16 @@ structure Sim (mode : Nat) (cipher rest : List UInt8) (se sp : Scanner) : Prop w
   peek_eq : se.peek = sp.peek
   stream : ∃ done cs t, cipher = done ++ cs ∧ Layout mode cs t ∧ se.src = t ++ rest ∧
     se.r = stateAfter eexecR done ∧ sp.src = decrypt se.r cs
-  line_eq : se.line = sp.line
+  line_eq : se.line = sp.line + dl
   col_eq : se.col = sp.col
   crSeen_eq : se.crSeen = sp.crSeen
   dsc_eq : se.dsc = sp.dsc
   err_eq : se.err = sp.err
   fault_eq : se.fault = sp.fault
+
+/-- the relation with equal line counters (the plain scanner is taken at the line the decrypting scanner has
+reached after the random prefix) -/
+abbrev Sim (mode : Nat) (cipher rest : List UInt8) (se sp : Scanner) : Prop := SimL 0 mode cipher rest se sp
 
 /-- the plain scanner has run into its end (only then the two sides part company) -/
 def Exhausted (sp : Scanner) : Prop :=
@@ -262,15 +269,15 @@ def Exhausted (sp : Scanner) : Prop :=
 /-- `m` cannot tell an eexec-encrypted source from its plaintext: run on `Sim`-related states it gives the same
 result (value or error) and `Sim`-related states, unless the plain side runs into the end of the plaintext. -/
 def SimM {α : Type} (m : SM α) : Prop :=
-  (∀ mode cipher rest se sp, Sim mode cipher rest se sp →
-    (∃ r se' sp', m se = (r, se') ∧ m sp = (r, sp') ∧ Sim mode cipher rest se' sp') ∨ Exhausted (m sp).2) ∧
+  (∀ dl mode cipher rest se sp, SimL dl mode cipher rest se sp →
+    (∃ r se' sp', m se = (r, se') ∧ m sp = (r, sp') ∧ SimL dl mode cipher rest se' sp') ∨ Exhausted (m sp).2) ∧
   (∀ sp, Exhausted sp → Exhausted (m sp).2)
 
 theorem SimM.pure {α : Type} (a : α) : SimM (pure a : SM α) :=
-  ⟨fun _ _ _ se sp h => Or.inl ⟨.ok a, se, sp, rfl, rfl, h⟩, fun _ h => h⟩
+  ⟨fun _ _ _ _ se sp h => Or.inl ⟨.ok a, se, sp, rfl, rfl, h⟩, fun _ h => h⟩
 
 theorem SimM.fail {α : Type} (e : Err) : SimM (fail e : SM α) :=
-  ⟨fun _ _ _ se sp h => Or.inl ⟨.error e, se, sp, rfl, rfl, h⟩, fun _ h => h⟩
+  ⟨fun _ _ _ _ se sp h => Or.inl ⟨.error e, se, sp, rfl, rfl, h⟩, fun _ h => h⟩
 
 theorem bind_run {α β : Type} (m : SM α) (k : α → SM β) (s : Scanner) :
     (m >>= k) s = match m s with
@@ -284,14 +291,14 @@ theorem bind_run {α β : Type} (m : SM α) (k : α → SM β) (s : Scanner) :
 
 theorem SimM.bind {α β : Type} {m : SM α} {k : α → SM β} (hm : SimM m) (hk : ∀ a, SimM (k a)) : SimM (m >>= k) := by
   constructor
-  · intro mode cipher rest se sp h
-    rcases hm.1 mode cipher rest se sp h with ⟨r, se', sp', h1, h2, h'⟩ | hex
+  · intro dl mode cipher rest se sp h
+    rcases hm.1 dl mode cipher rest se sp h with ⟨r, se', sp', h1, h2, h'⟩ | hex
     · cases r with
       | error e =>
         exact Or.inl ⟨.error e, se', sp', bind_err _ _ _ _ _ h1, bind_err _ _ _ _ _ h2, h'⟩
       | ok a =>
         rw [bind_ok _ _ _ _ _ h1, bind_ok _ _ _ _ _ h2]
-        exact (hk a).1 mode cipher rest se' sp' h'
+        exact (hk a).1 dl mode cipher rest se' sp' h'
     · right
       rw [bind_run]
       generalize hq : m sp = p at hex
@@ -310,8 +317,8 @@ theorem SimM.bind {α β : Type} {m : SM α} {k : α → SM β} (hm : SimM m) (h
 
 theorem SimM.attempt {α : Type} {m : SM α} (hm : SimM m) : SimM (attempt m) := by
   constructor
-  · intro mode cipher rest se sp h
-    rcases hm.1 mode cipher rest se sp h with ⟨r, se', sp', h1, h2, h'⟩ | hex
+  · intro dl mode cipher rest se sp h
+    rcases hm.1 dl mode cipher rest se sp h with ⟨r, se', sp', h1, h2, h'⟩ | hex
     · exact Or.inl ⟨.ok r, se', sp', by simp [Scan.attempt, h1], by simp [Scan.attempt, h2], h'⟩
     · exact Or.inr hex
   · intro sp h
@@ -319,43 +326,48 @@ theorem SimM.attempt {α : Type} {m : SM α} (hm : SimM m) : SimM (attempt m) :=
 
 /-- a state update that both sides perform alike -/
 def Benign (f : Scanner → Scanner) : Prop :=
-  (∀ mode cipher rest se sp, Sim mode cipher rest se sp → Sim mode cipher rest (f se) (f sp)) ∧ (∀ sp, Exhausted sp → Exhausted (f sp))
+  (∀ dl mode cipher rest se sp, SimL dl mode cipher rest se sp → SimL dl mode cipher rest (f se) (f sp)) ∧ (∀ sp, Exhausted sp → Exhausted (f sp))
 
 theorem SimM.modS {f : Scanner → Scanner} (hf : Benign f) : SimM (modS f) :=
-  ⟨fun mode cipher rest se sp h => Or.inl ⟨.ok (), f se, f sp, rfl, rfl, hf.1 mode cipher rest se sp h⟩, fun sp h => hf.2 sp h⟩
+  ⟨fun dl mode cipher rest se sp h => Or.inl ⟨.ok (), f se, f sp, rfl, rfl, hf.1 dl mode cipher rest se sp h⟩, fun sp h => hf.2 sp h⟩
 
 /-- reading the scanner state is harmless as long as only the peek buffer, the replay flag and the
-position are looked at -/
-theorem SimM.getS_bind {β : Type} (k : List UInt8 → Bool → Nat → Nat → Bool → SM β)
-    (hk : ∀ p g l c x, SimM (k p g l c x)) :
-    SimM (getS >>= fun s => k s.peek s.regurgitate s.line s.col s.crSeen) := by
+column are looked at (not the line counter: it is never read, and the two sides may differ in it by a constant) -/
+theorem SimM.getS_bind {β : Type} (k : List UInt8 → Bool → Nat → Bool → SM β)
+    (hk : ∀ p g c x, SimM (k p g c x)) :
+    SimM (getS >>= fun s => k s.peek s.regurgitate s.col s.crSeen) := by
   constructor
-  · intro mode cipher rest se sp h
-    have e1 : (getS >>= fun s => k s.peek s.regurgitate s.line s.col s.crSeen) se =
-        k se.peek se.regurgitate se.line se.col se.crSeen se := bind_ok _ _ _ _ _ rfl
-    have e2 : (getS >>= fun s => k s.peek s.regurgitate s.line s.col s.crSeen) sp =
-        k sp.peek sp.regurgitate sp.line sp.col sp.crSeen sp := bind_ok _ _ _ _ _ rfl
-    rw [e1, e2, h.peek_eq, h.reg_e, h.reg_p, h.line_eq, h.col_eq, h.crSeen_eq]
-    exact (hk _ _ _ _ _).1 mode cipher rest se sp h
+  · intro dl mode cipher rest se sp h
+    have e1 : (getS >>= fun s => k s.peek s.regurgitate s.col s.crSeen) se =
+        k se.peek se.regurgitate se.col se.crSeen se := bind_ok _ _ _ _ _ rfl
+    have e2 : (getS >>= fun s => k s.peek s.regurgitate s.col s.crSeen) sp =
+        k sp.peek sp.regurgitate sp.col sp.crSeen sp := bind_ok _ _ _ _ _ rfl
+    rw [e1, e2, h.peek_eq, h.reg_e, h.reg_p, h.col_eq, h.crSeen_eq]
+    exact (hk _ _ _ _).1 dl mode cipher rest se sp h
   · intro sp h
-    have e2 : (getS >>= fun s => k s.peek s.regurgitate s.line s.col s.crSeen) sp =
-        k sp.peek sp.regurgitate sp.line sp.col sp.crSeen sp := bind_ok _ _ _ _ _ rfl
+    have e2 : (getS >>= fun s => k s.peek s.regurgitate s.col s.crSeen) sp =
+        k sp.peek sp.regurgitate sp.col sp.crSeen sp := bind_ok _ _ _ _ _ rfl
     rw [e2]
-    exact (hk _ _ _ _ _).2 sp h
+    exact (hk _ _ _ _).2 sp h
 
 theorem Benign.setPeek (p : List UInt8) : Benign (fun s => { s with peek := p }) :=
-  ⟨fun _ _ _ _ _ h => ⟨h.mode_ok, h.eexec_e, h.eexec_p, h.reg_e, h.reg_p, rfl, h.stream, h.line_eq, h.col_eq,
+  ⟨fun _ _ _ _ _ _ h => ⟨h.mode_ok, h.eexec_e, h.eexec_p, h.reg_e, h.reg_p, rfl, h.stream, h.line_eq, h.col_eq,
       h.crSeen_eq, h.dsc_eq, h.err_eq, h.fault_eq⟩,
    fun _ h => h⟩
 
 theorem Benign.pushPeek (b : UInt8) : Benign (fun s => { s with peek := s.peek ++ [b] }) :=
-  ⟨fun _ _ _ _ _ h => ⟨h.mode_ok, h.eexec_e, h.eexec_p, h.reg_e, h.reg_p, by simp [h.peek_eq], h.stream, h.line_eq,
+  ⟨fun _ _ _ _ _ _ h => ⟨h.mode_ok, h.eexec_e, h.eexec_p, h.reg_e, h.reg_p, by simp [h.peek_eq], h.stream, h.line_eq,
       h.col_eq, h.crSeen_eq, h.dsc_eq, h.err_eq, h.fault_eq⟩,
    fun _ h => h⟩
 
 theorem Benign.bump (b : UInt8) : Benign (bump b) :=
-  ⟨fun _ _ _ _ _ h => ⟨h.mode_ok, h.eexec_e, h.eexec_p, h.reg_e, h.reg_p, h.peek_eq, h.stream,
-      by simp [EexecStream.bump, h.line_eq, h.crSeen_eq], by simp [EexecStream.bump, h.col_eq, h.crSeen_eq], rfl,
+  ⟨fun _ _ _ _ _ _ h => ⟨h.mode_ok, h.eexec_e, h.eexec_p, h.reg_e, h.reg_p, h.peek_eq, h.stream,
+      (by
+        simp only [EexecStream.bump, h.line_eq, h.crSeen_eq]
+        split
+        · rfl
+        · split <;> omega),
+      by simp [EexecStream.bump, h.col_eq, h.crSeen_eq], rfl,
       h.dsc_eq, h.err_eq, h.fault_eq⟩,
    fun _ h => h⟩
 
@@ -370,7 +382,7 @@ theorem readByteRaw_end (s : Scanner) (hreg : s.regurgitate = false) (hs : s.src
 /-- **`readByte`**: the decrypting read of the eexec side returns what the plain side reads -/
 theorem SimM.readByte : SimM readByte := by
   constructor
-  · intro mode cipher rest se sp h
+  · intro dl mode cipher rest se sp h
     obtain ⟨done, cs, t, hci, hl, hse, hr, hsp⟩ := h.stream
     cases cs with
     | nil =>
@@ -418,7 +430,7 @@ theorem SimM.nextK (p : List UInt8) (g : Bool) : SimM (nextK p g) := by
 /-- **`Next`** -/
 theorem SimM.next : SimM next := by
   rw [next_eq]
-  exact SimM.getS_bind (fun p g _ _ _ => EexecStream.nextK p g) (fun p g _ _ _ => SimM.nextK p g)
+  exact SimM.getS_bind (fun p g _ _ => EexecStream.nextK p g) (fun p g _ _ => SimM.nextK p g)
 
 def peekK (p : List UInt8) : SM UInt8 :=
   match p with
@@ -432,7 +444,7 @@ theorem peek_eq : Scan.peek = getS >>= fun s => peekK s.peek := by
 /-- **`Peek`** -/
 theorem SimM.peek : SimM Scan.peek := by
   rw [peek_eq]
-  refine SimM.getS_bind (fun p _ _ _ _ => peekK p) (fun p _ _ _ _ => ?_)
+  refine SimM.getS_bind (fun p _ _ _ => peekK p) (fun p _ _ _ => ?_)
   unfold peekK
   cases p with
   | cons b _ => exact SimM.pure b
@@ -442,22 +454,22 @@ theorem SimM.peek : SimM Scan.peek := by
 theorem SimM.peekN (n fuel : Nat) : SimM (peekN n fuel) := by
   induction fuel with
   | zero =>
-    exact SimM.getS_bind (fun p _ _ _ _ => (Pure.pure (p.take n) : SM (List UInt8))) (fun p _ _ _ _ => SimM.pure _)
+    exact SimM.getS_bind (fun p _ _ _ => (Pure.pure (p.take n) : SM (List UInt8))) (fun p _ _ _ => SimM.pure _)
   | succ fuel ih =>
-    refine SimM.getS_bind (fun p _ _ _ _ =>
+    refine SimM.getS_bind (fun p _ _ _ =>
       (if p.length ≥ n then Pure.pure (p.take n)
        else
         Scan.attempt Scan.readByte >>= fun r =>
           match r with
           | .error _ => getS >>= fun s => Pure.pure s.peek
           | .ok b => Scan.modS (fun s => { s with peek := s.peek ++ [b] }) >>= fun _ => Scan.peekN n fuel : SM (List UInt8)))
-      (fun p _ _ _ _ => ?_)
+      (fun p _ _ _ => ?_)
     split
     · exact SimM.pure _
     · refine SimM.bind (SimM.attempt SimM.readByte) (fun r => ?_)
       cases r with
       | error e =>
-        exact SimM.getS_bind (fun p _ _ _ _ => (Pure.pure p : SM (List UInt8))) (fun p _ _ _ _ => SimM.pure _)
+        exact SimM.getS_bind (fun p _ _ _ => (Pure.pure p : SM (List UInt8))) (fun p _ _ _ => SimM.pure _)
       | ok b => exact SimM.bind (SimM.modS (Benign.pushPeek b)) (fun _ => ih)
 
 theorem SimM.lookingAt (pat : List UInt8) : SimM (lookingAt pat) :=
@@ -725,7 +737,7 @@ theorem beginEexec_front (s0 : Scanner) (ws : List UInt8) (b1 b2 b3 b4 : UInt8) 
     (hpk : s0.peek.length ≤ 4) (hs : s0.peek ++ s0.src = ws ++ b1 :: b2 :: b3 :: b4 :: y)
     (hws : ∀ a ∈ ws, isEexecSpace a = true) (hb : isEexecSpace b1 = false) :
     beginEexec s0 =
-      (skipIV 4 >>= fun _ => modS (fun s => { s with regurgitate := false }))
+      (skipIV 4 >>= fun _ => modS (fun s => { s with regurgitate := false, col := 0, crSeen := false }))
         (ov [b1, b2, b3, b4] y (if [b1, b2, b3, b4].all isHexDigit then 1 else 2) eexecR true (bumps s0 ws)) := by
   obtain ⟨h1, h2, h3, h4⟩ := skipEexecSpace_clear ws s0 b1 (b2 :: b3 :: b4 :: y) hc hs hws hb (fuelOf s0)
     (by have := congrArg List.length hs; simp [fuelOf] at this ⊢; omega)
@@ -810,9 +822,10 @@ theorem skipIV_succ (n : Nat) (s s' : Scanner) (b : UInt8) (h : next s = (.ok b,
   conv => lhs; unfold skipIV
   exact bind_ok _ _ _ _ _ h
 
-/-- the state `beginEexec` leaves: position advanced over `skipped`, nothing peeked, decryption on -/
+/-- the state `beginEexec` leaves: line counter advanced over `skipped`, column 0 (the plaintext starts a new
+line whatever the random prefix decrypts to), nothing peeked, decryption on -/
 def afterBegin (s0 : Scanner) (mode : Nat) (skipped : List UInt8) (r : UInt16) (src : List UInt8) : Scanner :=
-  ov [] src mode r false (bumps s0 skipped)
+  { ov [] src mode r false (bumps s0 skipped) with col := 0, crSeen := false }
 
 theorem stateAfter4 (r : UInt16) (a1 a2 a3 a4 : UInt8) :
     stateAfter r [a1, a2, a3, a4] = nextR (nextR (nextR (nextR r a1) a2) a3) a4 := by
@@ -835,7 +848,8 @@ theorem skipIV_bin (s : Scanner) (a1 a2 a3 a4 : UInt8) (y : List UInt8) (r : UIn
   rfl
 
 theorem regurgitate_off (P S : List UInt8) (m : Nat) (r : UInt16) (s : Scanner) :
-    modS (fun s => { s with regurgitate := false }) (ov P S m r true s) = (.ok (), ov P S m r false s) := rfl
+    modS (fun s => { s with regurgitate := false, col := 0, crSeen := false }) (ov P S m r true s) =
+      (.ok (), { ov P S m r false s with col := 0, crSeen := false }) := rfl
 
 /-- **binary**: `beginEexec` consumes the white space and exactly the four peeked cipher bytes -/
 theorem beginEexec_binary_raw (s0 : Scanner) (ws : List UInt8) (a1 a2 a3 a4 : UInt8) (y : List UInt8) (hc : Clear s0)
@@ -920,10 +934,10 @@ theorem beginEexec_hex_raw (s0 : Scanner) (ws : List UInt8) (c1 c2 c3 c4 : UInt8
 /-! ### the byte stream after `beginEexec` -/
 
 /-- one decrypting read, with the plain side spelled out -/
-theorem Sim.readByte_step {mode : Nat} {cipher rest : List UInt8} {se sp : Scanner} (h : Sim mode cipher rest se sp)
+theorem SimL.readByte_step {dl mode : Nat} {cipher rest : List UInt8} {se sp : Scanner} (h : SimL dl mode cipher rest se sp)
     (b : UInt8) (x : List UInt8) (hs : sp.src = b :: x) :
     ∃ se', readByte se = (.ok b, se') ∧ readByte sp = (.ok b, { sp with src := x }) ∧
-      Sim mode cipher rest se' { sp with src := x } := by
+      SimL dl mode cipher rest se' { sp with src := x } := by
   obtain ⟨done, cs, t, hci, hl, hse, hr, hsp⟩ := h.stream
   cases cs with
   | nil => rw [decrypt_nil, hs] at hsp; cases hsp
@@ -941,9 +955,9 @@ theorem Sim.readByte_step {mode : Nat} {cipher rest : List UInt8} {se sp : Scann
 
 /-- **`Next` delivers the plaintext**: if the plain side still has the byte `b` (peeked or not), both sides
 return `b`, stay related, and the plain side has advanced by exactly that byte -/
-theorem Sim.next_step {mode : Nat} {cipher rest : List UInt8} {se sp : Scanner} (h : Sim mode cipher rest se sp)
+theorem SimL.next_step {dl mode : Nat} {cipher rest : List UInt8} {se sp : Scanner} (h : SimL dl mode cipher rest se sp)
     (b : UInt8) (x : List UInt8) (hs : sp.peek ++ sp.src = b :: x) :
-    ∃ se' sp', next se = (.ok b, se') ∧ next sp = (.ok b, sp') ∧ Sim mode cipher rest se' sp' ∧
+    ∃ se' sp', next se = (.ok b, se') ∧ next sp = (.ok b, sp') ∧ SimL dl mode cipher rest se' sp' ∧
       sp'.peek ++ sp'.src = x ∧ sp'.peek = sp.peek.tail := by
   cases hp : sp.peek with
   | cons b' p =>
@@ -951,21 +965,21 @@ theorem Sim.next_step {mode : Nat} {cipher rest : List UInt8} {se sp : Scanner} 
     obtain ⟨rfl, hx⟩ := List.cons.inj hs
     have hpe : se.peek = b' :: p := by rw [h.peek_eq, hp]
     exact ⟨_, _, next_peeked se b' p h.reg_e hpe, next_peeked sp b' p h.reg_p hp,
-      (Benign.bump b').1 _ _ _ _ _ ((Benign.setPeek p).1 _ _ _ _ _ h), hx, rfl⟩
+      (Benign.bump b').1 _ _ _ _ _ _ ((Benign.setPeek p).1 _ _ _ _ _ _ h), hx, rfl⟩
   | nil =>
     rw [hp] at hs
     obtain ⟨se', h1, h2, h3⟩ := h.readByte_step b x hs
     have hpe : se.peek = [] := by rw [h.peek_eq, hp]
     exact ⟨_, _, next_read se se' b (Or.inl hpe) h1, next_read sp _ b (Or.inl hp) h2,
-      (Benign.bump b).1 _ _ _ _ _ h3, by show sp.peek ++ x = x; rw [hp]; rfl, by show sp.peek = _; rw [hp]; rfl⟩
+      (Benign.bump b).1 _ _ _ _ _ _ h3, by show sp.peek ++ x = x; rw [hp]; rfl, by show sp.peek = _; rw [hp]; rfl⟩
 
 /-- **`scanner.Read` delivers the plaintext byte-exact**: `k` successive `Next` calls return the next `k`
 plaintext bytes, on both sides, and leave related states with the plain side advanced by `k` -/
-theorem Sim.readN_steps {mode : Nat} {cipher rest : List UInt8} (k : Nat) :
-    ∀ {se sp : Scanner} (acc : List UInt8), Sim mode cipher rest se sp → k ≤ (sp.peek ++ sp.src).length →
+theorem SimL.readN_steps {dl mode : Nat} {cipher rest : List UInt8} (k : Nat) :
+    ∀ {se sp : Scanner} (acc : List UInt8), SimL dl mode cipher rest se sp → k ≤ (sp.peek ++ sp.src).length →
     ∃ se' sp', readN k acc se = (.ok (acc ++ (sp.peek ++ sp.src).take k, none), se') ∧
       readN k acc sp = (.ok (acc ++ (sp.peek ++ sp.src).take k, none), sp') ∧
-      Sim mode cipher rest se' sp' ∧ sp'.peek ++ sp'.src = (sp.peek ++ sp.src).drop k ∧
+      SimL dl mode cipher rest se' sp' ∧ sp'.peek ++ sp'.src = (sp.peek ++ sp.src).drop k ∧
       (sp.peek = [] → sp'.peek = []) := by
   induction k with
   | zero =>
@@ -991,7 +1005,7 @@ theorem Sim.readN_steps {mode : Nat} {cipher rest : List UInt8} (k : Nat) :
 /-- the position in the cipher text and the register are determined by the number of plaintext bytes that are
 not yet decrypted: with `n = cipher.length - sp.src.length` cipher bytes consumed, the raw source is the layout of
 `cipher.drop n` followed by `rest` and the register is the one after `cipher.take n` -/
-theorem Sim.position {mode : Nat} {cipher rest : List UInt8} {se sp : Scanner} (h : Sim mode cipher rest se sp) :
+theorem SimL.position {dl mode : Nat} {cipher rest : List UInt8} {se sp : Scanner} (h : SimL dl mode cipher rest se sp) :
     ∃ t, Layout mode (cipher.drop (cipher.length - sp.src.length)) t ∧ se.src = t ++ rest ∧
       se.r = stateAfter eexecR (cipher.take (cipher.length - sp.src.length)) ∧
       sp.src = decrypt se.r (cipher.drop (cipher.length - sp.src.length)) := by
@@ -1009,9 +1023,10 @@ buffer stay there (they are delivered first, as they are), the raw text of the c
 theorem endEexec_run (se : Scanner) : endEexec se = (.ok (), { se with eexec := 0 }) := rfl
 
 /-- when the whole plaintext has been decrypted (peeked bytes may be outstanding), closing the section gives
-exactly the plain scanner continued with the clear text `rest` -/
-theorem Sim.endEexec_at_end {mode : Nat} {cipher rest : List UInt8} {se sp : Scanner} (h : Sim mode cipher rest se sp)
-    (hend : sp.src = []) : endEexec se = (.ok (), { sp with src := rest, r := se.r }) := by
+the plain scanner continued with the clear text `rest`, at the line the decrypting scanner has counted -/
+theorem SimL.endEexec_at_end_line {dl mode : Nat} {cipher rest : List UInt8} {se sp : Scanner}
+    (h : SimL dl mode cipher rest se sp) (hend : sp.src = []) :
+    endEexec se = (.ok (), { sp with src := rest, r := se.r, line := sp.line + dl }) := by
   obtain ⟨done, cs, t, hci, hl, hse, hr, hsp⟩ := h.stream
   have hcs : cs = [] := by
     have := congrArg List.length hsp
@@ -1027,6 +1042,11 @@ theorem Sim.endEexec_at_end {mode : Nat} {cipher rest : List UInt8} {se sp : Sca
   simp only at *
   subst h3 h4 h5 h6 h7 h8 h9 h10 h11 h12 hse
   simp
+
+/-- … with equal line counters: exactly the plain scanner continued with the clear text `rest` -/
+theorem Sim.endEexec_at_end {mode : Nat} {cipher rest : List UInt8} {se sp : Scanner} (h : Sim mode cipher rest se sp)
+    (hend : sp.src = []) : endEexec se = (.ok (), { sp with src := rest, r := se.r }) :=
+  SimL.endEexec_at_end_line h hend
 
 /-! ### layouts, legality, and the two main theorems -/
 
@@ -1102,6 +1122,90 @@ theorem eexec_begin_hex (s0 : Scanner) (ws pre plain t rest : List UInt8) (hc : 
   exact ⟨Or.inl rfl, rfl, rfl, rfl, rfl, rfl, ⟨[a1, a2, a3, a4], y, t', rfl, Or.inr ⟨rfl, ht'⟩, rfl, rfl, hd2.symm⟩,
     rfl, rfl, rfl, rfl, rfl, rfl⟩
 
+/-! ### a plain scanner that does not depend on the random prefix -/
+
+/-- the plain scanner at the beginning of the plaintext, built from the clear scanner `s0` and the white space `ws`
+only: line counter after `ws`, column 0, `crSeen` off, nothing peeked, source `plain` -/
+def plainStart0 (s0 : Scanner) (ws plain : List UInt8) : Scanner :=
+  { ov [] plain 0 0 false (bumps s0 ws) with col := 0, crSeen := false }
+
+theorem bumps_frame (s : Scanner) (l : List UInt8) :
+    bumps s l = { s with line := (bumps s l).line, col := (bumps s l).col, crSeen := (bumps s l).crSeen } := by
+  induction l generalizing s with
+  | nil => rfl
+  | cons b l ih =>
+    have e : bumps s (b :: l) = bumps (bump b s) l := rfl
+    rw [e, ih]
+    rfl
+
+theorem bump_line_le (b : UInt8) (s : Scanner) : s.line ≤ (bump b s).line := by
+  simp only [bump]
+  split
+  · exact Nat.le_refl _
+  · split <;> omega
+
+theorem bumps_line_le (s : Scanner) (l : List UInt8) : s.line ≤ (bumps s l).line := by
+  induction l generalizing s with
+  | nil => exact Nat.le_refl _
+  | cons b l ih => exact Nat.le_trans (bump_line_le b s) (ih (bump b s))
+
+/-- number of line ends among the decrypted random prefix (as `Next` counts them after `ws`) -/
+def prefixLines (s0 : Scanner) (ws pre : List UInt8) : Nat := (bumps s0 (ws ++ pre)).line - (bumps s0 ws).line
+
+theorem prefixLines_eq (s0 : Scanner) (ws pre : List UInt8) :
+    (bumps s0 (ws ++ pre)).line = (bumps s0 ws).line + prefixLines s0 ws pre := by
+  have := bumps_line_le (bumps s0 ws) pre
+  rw [← bumps_append] at this
+  unfold prefixLines
+  omega
+
+/-- replacing the plain scanner by one that differs only in the line counter and the (unused) cipher register -/
+theorem SimL.reline {dl mode : Nat} {cipher rest : List UInt8} {se sp : Scanner} (h : SimL dl mode cipher rest se sp)
+    (L : Nat) (R : UInt16) (dl' : Nat) (hL : sp.line + dl = L + dl') :
+    SimL dl' mode cipher rest se { sp with line := L, r := R } :=
+  ⟨h.mode_ok, h.eexec_e, h.eexec_p, h.reg_e, h.reg_p, h.peek_eq, h.stream, by rw [h.line_eq, hL], h.col_eq,
+    h.crSeen_eq, h.dsc_eq, h.err_eq, h.fault_eq⟩
+
+theorem plainOf_afterBegin_reline (s0 : Scanner) (mode : Nat) (ws pre : List UInt8) (r : UInt16) (src plain : List UInt8) :
+    plainStart0 s0 ws plain =
+      { plainOf (afterBegin s0 mode (ws ++ pre) r src) plain with line := (bumps s0 ws).line, r := 0 } := by
+  unfold plainStart0 plainOf afterBegin ov
+  rw [bumps_frame s0 ws, bumps_frame s0 (ws ++ pre)]
+
+/-- **binary sections, plain scanner independent of the prefix**: the state `beginEexec` leaves is related to
+`plainStart0 s0 ws plain`, which does not mention `pre`; only the line counters differ, by the number of line ends
+among the decrypted prefix bytes -/
+theorem eexec_begin_binary0 (s0 : Scanner) (ws pre plain rest : List UInt8) (hc : Clear s0) (hpk : s0.peek.length ≤ 4)
+    (hpre : pre.length = 4) (hws : ∀ a ∈ ws, isEexecSpace a = true)
+    (hlegal : BinaryLegal (encrypt eexecR (pre ++ plain)))
+    (hs : s0.peek ++ s0.src = ws ++ binaryLayout (encrypt eexecR (pre ++ plain)) ++ rest) :
+    ∃ s1, beginEexec s0 = (.ok (), s1) ∧
+      s1 = afterBegin s0 2 (ws ++ pre) (stateAfter eexecR ((encrypt eexecR (pre ++ plain)).take 4))
+            ((encrypt eexecR (pre ++ plain)).drop 4 ++ rest) ∧
+      SimL (prefixLines s0 ws pre) 2 (encrypt eexecR (pre ++ plain)) rest s1 (plainStart0 s0 ws plain) := by
+  obtain ⟨s1, hb, hs1, hsim⟩ := eexec_begin_binary s0 ws pre plain rest hc hpk hpre hws hlegal hs
+  refine ⟨s1, hb, hs1, ?_⟩
+  subst hs1
+  rw [plainOf_afterBegin_reline s0 2 ws pre]
+  refine hsim.reline _ _ _ ?_
+  show (bumps s0 (ws ++ pre)).line + 0 = _
+  rw [prefixLines_eq]; rfl
+
+theorem eexec_begin_hex0 (s0 : Scanner) (ws pre plain t rest : List UInt8) (hc : Clear s0) (hpk : s0.peek.length ≤ 4)
+    (hpre : pre.length = 4) (hws : ∀ a ∈ ws, isEexecSpace a = true)
+    (hlay : HexLayout (encrypt eexecR (pre ++ plain)) t)
+    (hs : s0.peek ++ s0.src = ws ++ t ++ rest) :
+    ∃ s1 t', beginEexec s0 = (.ok (), s1) ∧ HexTail ((encrypt eexecR (pre ++ plain)).drop 4) t' ∧
+      s1 = afterBegin s0 1 (ws ++ pre) (stateAfter eexecR ((encrypt eexecR (pre ++ plain)).take 4)) (t' ++ rest) ∧
+      SimL (prefixLines s0 ws pre) 1 (encrypt eexecR (pre ++ plain)) rest s1 (plainStart0 s0 ws plain) := by
+  obtain ⟨s1, t', hb, ht', hs1, hsim⟩ := eexec_begin_hex s0 ws pre plain t rest hc hpk hpre hws hlay hs
+  refine ⟨s1, t', hb, ht', hs1, ?_⟩
+  subst hs1
+  rw [plainOf_afterBegin_reline s0 1 ws pre]
+  refine hsim.reline _ _ _ ?_
+  show (bumps s0 (ws ++ pre)).line + 0 = _
+  rw [prefixLines_eq]; rfl
+
 /-- **the stream theorem** for both forms, from the state `beginEexec` leaves: `k ≤ plain.length` successive
 `Next` calls (this is `scanner.Read`, what `readstring` uses) return exactly `plain.take k`; afterwards exactly
 `4 + k` cipher bytes have been consumed: the raw source is the layout of `cipher.drop (4 + k)` followed by `rest`,
@@ -1109,14 +1213,14 @@ the register is the one after `cipher.take (4 + k)`, nothing is peeked, and the 
 the plain scanner, which stands before `plain.drop k`. -/
 theorem eexec_stream (mode : Nat) (cipher plain rest : List UInt8) (s1 : Scanner)
     (hlen : cipher.length = 4 + plain.length) (hpk : s1.peek = [])
-    (hsim : Sim mode cipher rest s1 (plainOf s1 plain)) (k : Nat) (hk : k ≤ plain.length) :
+    (hsim : SimL dl mode cipher rest s1 (plainOf s1 plain)) (k : Nat) (hk : k ≤ plain.length) :
     ∃ s' sp' t, readN k [] s1 = (.ok (plain.take k, none), s') ∧
-      Sim mode cipher rest s' sp' ∧ sp'.peek = [] ∧ sp'.src = plain.drop k ∧ s'.peek = [] ∧
+      SimL dl mode cipher rest s' sp' ∧ sp'.peek = [] ∧ sp'.src = plain.drop k ∧ s'.peek = [] ∧
       Layout mode (cipher.drop (4 + k)) t ∧ s'.src = t ++ rest ∧
       s'.r = stateAfter eexecR (cipher.take (4 + k)) := by
   have hp0 : (plainOf s1 plain).peek = [] := hpk
   have hl0 : (plainOf s1 plain).peek ++ (plainOf s1 plain).src = plain := by rw [hp0]; rfl
-  obtain ⟨s', sp', h1, _, h3, h4, h5⟩ := Sim.readN_steps k [] hsim (by rw [hl0]; exact hk)
+  obtain ⟨s', sp', h1, _, h3, h4, h5⟩ := SimL.readN_steps k [] hsim (by rw [hl0]; exact hk)
   rw [hl0] at h1 h4
   have hp' := h5 hp0
   rw [hp'] at h4
@@ -2010,7 +2114,7 @@ theorem Layout.length_le {mode : Nat} {cs t : List UInt8} (h : Layout mode cs t)
   · exact h.length_le
 
 /-- the fuel computed on the eexec side is at least the fuel computed on the plain side -/
-theorem Sim.mu_lt_fuel {mode : Nat} {cipher rest : List UInt8} {se sp : Scanner} (h : Sim mode cipher rest se sp) :
+theorem SimL.mu_lt_fuel {dl mode : Nat} {cipher rest : List UInt8} {se sp : Scanner} (h : SimL dl mode cipher rest se sp) :
     mu sp < fuelOf se ∧ mu sp < fuelOf sp := by
   obtain ⟨done, cs, t, _, hl, hse, _, hsp⟩ := h.stream
   have h1 := hl.length_le
@@ -2025,13 +2129,13 @@ scanners is simulation-invariant when its fuel is computed from the length of th
 theorem SimM.fuel_bind {β : Type} (L : Nat → SM β) (c : Nat) (hs : ∀ f, SimM (L f)) (hfi : FI L) :
     SimM (getS >>= fun s => L (fuelOf s + c)) := by
   constructor
-  · intro mode cipher rest se sp h
+  · intro dl mode cipher rest se sp h
     rw [getS_bind_run, getS_bind_run]
     have hmu := h.mu_lt_fuel
     have e : L (fuelOf sp + c) sp = L (fuelOf se + c) sp :=
       hfi (mu sp) _ _ (by omega) (by omega) sp ⟨⟨h.eexec_p, h.reg_p⟩, Nat.le_refl _⟩
     rw [e]
-    exact (hs _).1 mode cipher rest se sp h
+    exact (hs _).1 dl mode cipher rest se sp h
   · intro sp h
     rw [getS_bind_run]
     exact (hs _).2 sp h
@@ -2044,9 +2148,9 @@ theorem SimM.fuel_bind2 {α β : Type} (L : Nat → SM α) (c : Nat) (K : α →
 theorem SimM.getS_bind' {β : Type} (k : List UInt8 → Nat → Option Err → SM β) (hk : ∀ p c e, SimM (k p c e)) :
     SimM (getS >>= fun s => k s.peek s.col s.err) := by
   constructor
-  · intro mode cipher rest se sp h
+  · intro dl mode cipher rest se sp h
     rw [getS_bind_run, getS_bind_run, h.peek_eq, h.col_eq, h.err_eq]
-    exact (hk _ _ _).1 mode cipher rest se sp h
+    exact (hk _ _ _).1 dl mode cipher rest se sp h
   · intro sp h
     rw [getS_bind_run]
     exact (hk _ _ _).2 sp h
@@ -2086,7 +2190,7 @@ theorem SimM.readStructuredComment : SimM readStructuredComment := by
     split <;> exact SimM.pure _
 
 theorem Benign.pushDsc (kv : String × String) : Benign (fun s => { s with dsc := s.dsc ++ [kv] }) :=
-  ⟨fun _ _ _ _ _ h => ⟨h.mode_ok, h.eexec_e, h.eexec_p, h.reg_e, h.reg_p, h.peek_eq, h.stream, h.line_eq,
+  ⟨fun _ _ _ _ _ _ h => ⟨h.mode_ok, h.eexec_e, h.eexec_p, h.reg_e, h.reg_p, h.peek_eq, h.stream, h.line_eq,
       h.col_eq, h.crSeen_eq, by simp [h.dsc_eq], h.err_eq, h.fault_eq⟩,
    fun _ h => h⟩
 
@@ -2156,6 +2260,8 @@ theorem SimM.scanToken : SimM scanToken := by
 #print axioms eexec_stream
 #print axioms SimM.readStringBody
 #print axioms Sim.endEexec_at_end
+#print axioms eexec_begin_binary0
+#print axioms eexec_begin_hex0
 #print axioms SimM.scanToken
 
 end PsVerif.Proofs.EexecStream
